@@ -135,4 +135,20 @@ func VrfC15RestapiEnv() {
 	vrf_reach("C15.restapi.env-end")
 }
 
-var vrfEntries = map[string]func(){"VrfC15Restapi": VrfC15Restapi, "VrfC15RestapiEnv": VrfC15RestapiEnv}
+var vrfEntries = map[string]func(){"VrfC15Restapi": VrfC15Restapi, "VrfC15RestapiEnv": VrfC15RestapiEnv, "VrfC15RestapiDisplay": VrfC15RestapiDisplay}
+
+// VrfC15RestapiDisplay: the displayable form of the REST API section shows the
+// settings but neither the API passwords nor the private key.
+func VrfC15RestapiDisplay() {
+	cfg := &Config{}
+	vrf_assert(cfg.Default() == nil, "C15.restapi.display-default")
+	pw := "pw-" + vrf_nondet_string("password")
+	cfg.BasicAuthCredentials = map[string]string{"admin": pw}
+	cfg.HTTPLogFile = "log-file-shown"
+	out, err := cfg.ToDisplayJSON()
+	vrf_assert(err == nil, "C15.restapi.display-ok")
+	text := string(out)
+	vrf_assert(!vrf_strcontains(text, pw), "C15.restapi.display-hides-passwords")
+	vrf_assert(vrf_strcontains(text, "log-file-shown"), "C15.restapi.display-shows-settings")
+	vrf_reach("C15.restapi.display-end")
+}
